@@ -41,10 +41,14 @@ def conv_case_st(draw):
     kind = draw(st.sampled_from(["A", "A", "V"]))
     dt = draw(st.sampled_from(vs.DTYPES))
     shape = draw(st.one_of(vs.shapes, vs.shapes, vs.shapes, st.sampled_from([[0], [0, 3]])))
+    # magnitudes up to 1e6 / down to 1e-6: times the cgs value of a large unit they leave the float32 range although the
+    # converted number does not (1e6 M_sun in M_earth)
+    wide = draw(st.booleans())
+    lo, hi = (-6, 6) if wide else (-3, 3)
     if kind == "A":
-        obj = draw(vs.array_specs(units=[ua], dtypes=[dt], shape=shape, specials=True))
+        obj = draw(vs.array_specs(units=[ua], dtypes=[dt], shape=shape, specials=True, lo=lo, hi=hi))
     else:
-        obj = draw(vs.vector_specs(units=[ua], dtypes=[dt], shape=shape))
+        obj = draw(vs.vector_specs(units=[ua], dtypes=[dt], shape=shape, lo=lo, hi=hi))
     case = {"obj": obj, "to": ub, "rel": rel, "form": draw(st.sampled_from(["str", "unit"]))}
     if rel != "incompat":
         fam = um.FAMILY_OF[ua]
